@@ -30,8 +30,12 @@ MIN_NONTRIVIAL = {"quick": 250, "thorough": 12000}
 HOSTILE = set(POOL_HOSTILE)
 
 
-def mech(prog, default):
-    return "C14/py-reserved-identifier" if program_identifiers(prog) & HOSTILE else default
+def mech(prog, default, failure="failed"):
+    """same classes as C07's classifier (identifier kind x role x failure), under the C14 prefix"""
+    from pyabv.props.c07 import mechanism
+
+    m = mechanism(prog, default, failure)
+    return m.replace("C07/", "C14/", 1) if m is not default else default
 
 
 def check_program(ctx, im, text, gp, ninputs, layer, prog=None):
@@ -62,7 +66,7 @@ def check_program(ctx, im, text, gp, ninputs, layer, prog=None):
             src = im.generate_text(text, expose)
         except Exception as e:  # noqa: BLE001
             ctx.violation("generate-code-raised", dict(text=text, layout=layout, error=[type(e).__name__, str(e)[:200]], layer=layer),
-                          mechanism=mech(prog, "C14/generate-code-raised"))
+                          mechanism=mech(prog, "C14/generate-code-raised", f"{layout}/generate-code-raised"))
             continue
         ns = {"__name__": "gen"}
         try:
@@ -70,12 +74,12 @@ def check_program(ctx, im, text, gp, ninputs, layer, prog=None):
         except Exception as e:  # noqa: BLE001
             ctx.violation("generated-module-does-not-load", dict(text=text, layout=layout, error=[type(e).__name__, str(e)[:200]],
                                                                  generated=src[:1500], layer=layer),
-                          mechanism=mech(prog, "C14/module-does-not-load"))
+                          mechanism=mech(prog, "C14/module-does-not-load", f"{layout}/module-does-not-load"))
             continue
         fn = ns.get(prog.id)
         if not callable(fn):
             ctx.violation("no-function-named-after-experiment", dict(text=text, layout=layout, names=sorted(k for k in ns if not k.startswith("__"))),
-                          mechanism=mech(prog, "C14/no-function"))
+                          mechanism=mech(prog, "C14/no-function", f"{layout}/no-function"))
             continue
         if expose and not callable(ns.get("choose_experiment_variant")):
             ctx.count("exposed-layout-without-module-level-helper")
@@ -90,7 +94,7 @@ def check_program(ctx, im, text, gp, ninputs, layer, prog=None):
             if not same:
                 ctx.violation("generated-source-disagrees-with-evaluator",
                               dict(text=text, layout=layout, env=env, evaluator=a, generated=b, layer=layer),
-                              mechanism=mech(prog, "C14/disagrees"))
+                              mechanism=mech(prog, "C14/disagrees", f"{layout}/disagrees"))
                 break
         else:
             ctx.count(f"{layer}/{layout}/agreed")
